@@ -288,6 +288,14 @@ func (bc *BlockChain) SetHead(head uint64) error {
 
 	// Rewind the header chain, deleting all block bodies until then
 	delFn := func(hash common.Hash, num uint64) {
+		// the transactions of a removed block are no longer canonical: drop their
+		// lookup entries too, or they resolve again if the block comes back as a
+		// side block
+		if body := GetBodyNoVersion(bc.db, hash, num); body != nil {
+			for _, tx := range body.Transactions {
+				DeleteTxLookupEntry(bc.db, tx.Hash())
+			}
+		}
 		DeleteBody(bc.db, hash, num)
 	}
 	bc.hc.SetHead(head, delFn)
